@@ -210,7 +210,12 @@ impl<L: LangExt, N: Analysis<L> + 'static> Run<L, N> where N::Data: std::fmt::De
         let mut cls = Vec::new();
         for i in &ids {
             let mut e = format!("\"{}\":{{\"nslots\":{},\"gcount\":{}", i.0, eg.slots(*i).len(), self.group_count(*i));
-            if self.with_data { e.push_str(&format!(",\"data\":{}", format!("{:?}", eg.analysis_data(*i)))); }
+            if self.with_data {
+                e.push_str(&format!(",\"data\":{}", format!("{:?}", eg.analysis_data(*i))));
+                let mut acc: Option<N::Data> = None;
+                for n in eg.enodes(*i) { let v = N::make(eg, &n); acc = Some(match acc { None => v, Some(a) => N::merge(a, v) }); }
+                e.push_str(&format!(",\"data_fix\":{}", match &acc { Some(a) => format!("{:?}", a), None => "null".to_string() }));
+            }
             e.push('}'); cls.push(e);
         }
         s.push_str(&format!(",\"classes\":{{{}}}", cls.join(",")));
@@ -503,7 +508,25 @@ fn run_uf_case(_case: &[String]) -> String { "{\"error\":\"built without --cfg s
 #[cfg(not(slotted_egraphs_verif))]
 fn run_group_case(_case: &[String]) -> String { "{\"error\":\"built without --cfg slotted_egraphs_verif\"}".to_string() }
 
+fn run_cost_case(case: &[String]) -> String {
+    let head: Vec<&str> = case[0].split_whitespace().collect();
+    let mut out = Vec::new();
+    for line in &case[1..] {
+        let t: Vec<&str> = line.split_whitespace().collect();
+        let (c1, c2): (u64, u64) = (t[1].parse().unwrap(), t[2].parse().unwrap());
+        let node = Lb::App(AppliedId::new(Id(0), SlotMap::new()), AppliedId::new(Id(1), SlotMap::new()));
+        let r = catch_unwind(AssertUnwindSafe(|| match t[0] {
+            "AstSize" => AstSize.cost(&node, |i| if i.0 == 0 { c1 } else { c2 }),
+            "Weighted" => Weighted.cost(&node, |i| if i.0 == 0 { c1 } else { c2 }),
+            _ => panic!("natdiff: cost function"),
+        }));
+        out.push(jstr(&match r { Ok(v) => v.to_string(), Err(_) => "panic".to_string() }));
+    }
+    format!("{{\"case\":{},\"results\":[{}]}}", jstr(head[1]), out.join(","))
+}
+
 fn run_case(case: &[String]) -> String {
+    if case[0].starts_with("case cost:") { return run_cost_case(case); }
     if case[0].starts_with("case uf:") { return run_uf_case(case); }
     if case[0].starts_with("case group:") { return run_group_case(case); }
     if case[0].starts_with("case slotmap:") { return run_slotmap_case(case); }
